@@ -275,6 +275,14 @@ func getRequestHeader(src *fasthttp.RequestHeader) (dest http.Header) {
 
 // ServeFastHTTP implements the fasthttp.RequestHandler.
 func (h *Handler) ServeFastHTTP(ctx *fasthttp.RequestCtx) {
+	// fasthttp does not recover panics of its request handler
+	defer func() {
+		if e := recover(); e != nil {
+			h.onFastHTTPError(ctx, core.NewPanicError(e))
+			ctx.Response.Reset()
+			ctx.SetStatusCode(fasthttp.StatusInternalServerError)
+		}
+	}()
 	if ctx.Request.Header.ContentLength() > h.Service.MaxRequestLength {
 		ctx.SetStatusCode(fasthttp.StatusRequestEntityTooLarge)
 		return
